@@ -190,3 +190,30 @@ def validate_evidence(ev):
         if not isinstance(c.get('rule'), str) or not c.get('samples'):
             return 'rule/samples'
     return None
+
+
+class Stalled(Exception):
+    """raised inside the code under test by the per-operation alarm: the operation did not finish in its time limit"""
+
+
+class time_limit(object):
+    """SIGALRM watchdog for one operation of the code under test (pure-Python loops are interruptible).
+    A stall is an outcome of its own -- callers count it; it is never silently folded into held or violated."""
+
+    def __init__(self, seconds):
+        self.seconds = seconds
+
+    def _fire(self, signum, frame):
+        raise Stalled('operation exceeded %ss' % self.seconds)
+
+    def __enter__(self):
+        import signal
+        self._old = signal.signal(signal.SIGALRM, self._fire)
+        signal.setitimer(signal.ITIMER_REAL, self.seconds)
+        return self
+
+    def __exit__(self, *a):
+        import signal
+        signal.setitimer(signal.ITIMER_REAL, 0)
+        signal.signal(signal.SIGALRM, self._old)
+        return False
